@@ -124,7 +124,8 @@ def gen_case(rng, dom, forced=None):
             if rng.random() < 0.65:
                 e, v = rng.choice([p for p in dom if (p[0] in ("load", "sgen", "storage") and p[1] in ("p_mw", "q_mvar", "scaling"))
                                    or (p[0] == "gen" and p[1] in ("p_mw", "vm_pu", "scaling")) or (p[0] == "ext_grid" and p[1] in ("vm_pu", "va_degree"))
-                                   or p[0] in ("trafo", "trafo3w", "line")])
+                                   or (p[0] in ("trafo", "trafo3w") and p[1] != "in_service")
+                                   or (p[0] == "line" and rng.random() < 0.25)])
             else:
                 e = rng.choice(ELEMENTS)
                 v = rng.choice([v for (ee, v) in dom if ee == e])
